@@ -31,6 +31,26 @@ CLAIMED = {
         note="Trusted: as C01.",
         technique="TLA+ spec (Eval annotations vs EvalCode compressed annotations) model-checked with TLC; behaviours replayed on the real code",
         design="6/C07"),
+    "C03": dict(
+        text="TLC explores the resolver as a small-step machine (ResolverCode.tla: cache set before references are followed, "
+             "local hit / cache hit / Loader call, info merge, fragment lookup) on bounded universes of embedded resources and "
+             "Loader documents, for every fault subset and every order of visiting references, and checks NoPanic, AtMostOnce, "
+             "NeverLoadsKnown, NoReentry, termination (liveness under weak fairness) and refinement of the RFC 3986 / JSON Schema "
+             "designation function (Resolve.tla, URI.tla) at termination. Each final state's prediction (Resolve ok/err, which "
+             "uniquely marked target accepts, the Loader call set) is replayed on the real Resolve/Validate with a logging Loader.",
+        note="Trusted: TLC, net/url parsing of generated URI texts (the RFC 3986 resolution itself is specified in URI.tla and "
+             "compared through the observed targets). Universes: DESIGN.md section 6 (C03).",
+        technique="TLA+ small-step resolver machine model-checked with TLC (safety + liveness); behaviours replayed on the real code",
+        design="6/C03"),
+    "C06": dict(
+        text="TLC checks the code-shaped dynamic-scope lookup (stack of schemas searched outermost-first through each entry's "
+             "base) against the specification's rule (outermost resource of the dynamic scope declaring the $dynamicAnchor, "
+             "static target otherwise) on all chains of 1..3 (thorough: 4) resources entered via $ref/$dynamicRef/allOf hops, "
+             "embedded and Loader-supplied, with fragment / resource-relative / pointer final references; marked targets reveal "
+             "the chosen subschema; all instances of a case are validated on one Resolved (history of calls).",
+        note="Trusted: as C01.",
+        technique="TLA+ spec (Eval DynTarget vs EvalCode DynLookup) model-checked with TLC; behaviours replayed on the real code",
+        design="6/C06"),
 }
 
 NOT_YET = "check not built yet in this round (work in progress; see DESIGN.md section 11)"
